@@ -1,0 +1,59 @@
+//go:build verif
+
+package ha
+
+import "net/http"
+
+// Verification seams (build tag "verif" only; add-only, no behaviour of their own).
+
+// VerifGate, when set, is called by a timer goroutine at the top of executeFailover /
+// executeFailback before it takes the controller lock. The conformance harness uses it
+// to hold a fired timer ("fired but not yet running") and release it deterministically.
+var VerifGate func(c *FailoverController, point string)
+
+func verifGate(c *FailoverController, point string) {
+	if f := VerifGate; f != nil {
+		f(c, point)
+	}
+}
+
+// VerifHandler returns the active node's real HTTP handlers on the same routes that
+// startActive registers, without opening a listening socket.
+func (s *HASyncer) VerifHandler() http.Handler {
+	mux := http.NewServeMux()
+	mux.HandleFunc("/ha/sessions", s.handleGetSessions)
+	mux.HandleFunc("/ha/sessions/stream", s.handleSessionStream)
+	mux.HandleFunc("/ha/health", s.handleHealth)
+	return mux
+}
+
+// VerifBroadcastPending performs the body of broadcastLoop for every queued change,
+// synchronously, and returns how many changes were handed to broadcastToClients.
+func (s *HASyncer) VerifBroadcastPending() int {
+	n := 0
+	for {
+		select {
+		case msg := <-s.pendingChanges:
+			s.broadcastToClients(msg)
+			n++
+		default:
+			return n
+		}
+	}
+}
+
+// VerifSSEClients returns the number of registered stream clients (active node).
+func (s *HASyncer) VerifSSEClients() int {
+	s.sseClientsMu.RLock()
+	defer s.sseClientsMu.RUnlock()
+	return len(s.sseClients)
+}
+
+// VerifFullSync runs the standby's full synchronisation once.
+func (s *HASyncer) VerifFullSync() error { return s.performFullSync() }
+
+// VerifSSEData hands one stream payload to the standby's stream message handler.
+func (s *HASyncer) VerifSSEData(data []byte) error { return s.handleSSEData(data) }
+
+// VerifConnectToStream runs the standby's stream reader until the stream ends.
+func (s *HASyncer) VerifConnectToStream() error { return s.connectToStream() }
